@@ -41,7 +41,7 @@ Definition regex_sites : list re_site := [
   (* interp/interp.go:1088 *)
   mkReSite "interp" "interp.go" "compileRegex" "Compile" "compiler.AddRegexFlags(regex)"
     (TLocal "re") true [] true;
-  (* internal/compiler/compiler.go:1110 *)
+  (* internal/compiler/compiler.go:1114 *)
   mkReSite "internal/compiler" "compiler.go" "regexIndex" "MustCompile" "AddRegexFlags(r)"
     (TLocal "re") true [] true;
   (* parser/parser.go:1040 *)
